@@ -165,4 +165,48 @@ dst4 = os.path.join(HERE, "src", "gen_repl.rs")
 if not os.path.exists(dst4) or open(dst4).read() != repl_txt:
     open(dst4, "w").write(repl_txt)
 repl_sha = hashlib.sha256(rfn_txt.encode()).hexdigest()
-print(json.dumps({"calculate_new_commit_index_sha256": leader_sha, "retrieve_to_be_synced_logs_for_peers_sha256": repl_sha, "buffered_raft_log_sha256": sha, "rewrites": {"R1_imports": removed, "R2_paths": n2, "R3": n3, "R4": n4, "R6_awaits": n6, "R7_test_helpers": n7}}))
+# ---- function slices: follower-side AppendEntries handling (three methods) + d-engine-proto's impl AppendEntriesResponse
+def cut_block(src, start, what):
+    i = src.index("{", start)
+    depth, j = 0, i
+    while True:
+        c = src[j]
+        if c == "{":
+            depth += 1
+        elif c == "}":
+            depth -= 1
+            if depth == 0:
+                break
+        j += 1
+    return src[start:j + 1]
+ftxts = []
+for nm in ("handle_append_entries", "if_update_commit_index_as_follower", "check_append_entries_request_is_legal"):
+    m = re.search(r"^    (async )?fn " + nm + r"\(", rsrc, re.M)
+    if not m:
+        fail("slice: fn " + nm + " not found in " + RH)
+    # the body starts at the first `{` after the parameter list's closing `)` at indentation 4
+    close = re.search(r"^    \)", rsrc[m.start():], re.M)
+    t = cut_block(rsrc, m.start(), nm) if not close else rsrc[m.start():m.start() + close.start()] + cut_block(rsrc, m.start() + close.start(), nm)
+    if nm == "handle_append_entries":
+        if not t.lstrip().startswith("async fn"):
+            fail("slice: handle_append_entries is no longer async")
+        t = t.replace("async fn", "fn", 1)
+        t, k = re.subn(r"\.await\b", ".shim_now()", t)
+        if k != 1:
+            fail(f"slice: handle_append_entries has {k} awaits (expected 1)")
+    ftxts.append(t)
+PX = "d-engine-proto/src/exts/replication_ext.rs"
+xsrc = open(os.path.join(REPO, PX)).read()
+m = re.search(r"^impl AppendEntriesResponse \{", xsrc, re.M)
+if not m:
+    fail("slice: impl AppendEntriesResponse not found in " + PX)
+ximpl = cut_block(xsrc, m.start(), "impl")
+foll_txt = ("// GENERATED by gen.py -- verbatim slices of " + RH + " (handle_append_entries [async de-sugared as R6], if_update_commit_index_as_follower,\n"
+            "// check_append_entries_request_is_legal) and of " + PX + " (impl AppendEntriesResponse)\n"
+            "#![allow(dead_code, unused_variables, unused_mut, clippy::all)]\nuse crate::fshim::*;\n" + ximpl + "\n"
+            "impl<T: FCfg> FollowerSlice<T> {\n" + "\n\n".join(ftxts) + "\n}\n#[cfg(kani)]\n#[path = \"h_follower.rs\"]\npub mod h;\n")
+dst5 = os.path.join(HERE, "src", "gen_follower.rs")
+if not os.path.exists(dst5) or open(dst5).read() != foll_txt:
+    open(dst5, "w").write(foll_txt)
+foll_sha = hashlib.sha256(("\n".join(ftxts) + ximpl).encode()).hexdigest()
+print(json.dumps({"calculate_new_commit_index_sha256": leader_sha, "retrieve_to_be_synced_logs_for_peers_sha256": repl_sha, "follower_append_slices_sha256": foll_sha, "buffered_raft_log_sha256": sha, "rewrites": {"R1_imports": removed, "R2_paths": n2, "R3": n3, "R4": n4, "R6_awaits": n6, "R7_test_helpers": n7}}))
